@@ -26,7 +26,22 @@ import (
 	"verif/rewrite"
 )
 
-const verifDir = "/verif"
+// verifDir is the checkout this binary belongs to (<verifDir>/bin/vcheck): /verif normally, a
+// snapshot directory under `vp run`.
+var verifDir = func() string {
+	if d := os.Getenv("VERIF_DIR"); d != "" {
+		return d
+	}
+	if exe, err := os.Executable(); err == nil {
+		if r, err := filepath.EvalSymlinks(exe); err == nil {
+			d := filepath.Dir(filepath.Dir(r))
+			if _, err := os.Stat(filepath.Join(d, "harness")); err == nil {
+				return d
+			}
+		}
+	}
+	return "/verif"
+}()
 
 type failure struct {
 	Sig string `json:"sig"`
